@@ -854,13 +854,41 @@ func noDuplicateNameEdge(b *ssa.BasicBlock, succ int) bool {
 				return false
 			}
 			rets := an.Returns(g)
+			found := 0
 			for _, r := range rets {
-				rc, isCall := r.Results[0].(*ssa.Call)
-				if len(r.Results) != 1 || !isCall || an.CalleeName(&rc.Call) != "slices.IndexFunc" || an.AP(rc.Call.Args[0]) != "recv.routers" {
+				if len(r.Results) != 1 {
 					return false
 				}
+				switch rv := an.ReturnValue(r, 0).(type) {
+				case *ssa.Call:
+					if an.CalleeName(&rv.Call) != "slices.IndexFunc" || an.AP(rv.Call.Args[0]) != "recv.routers" {
+						return false
+					}
+					found++
+				case *ssa.Const:
+					// "not found" of a hand-written search loop
+					if rv.Value == nil || rv.Int64() != -1 {
+						return false
+					}
+				default:
+					// the index of a range loop over the router list, returned behind a comparison of names
+					isIdx := false
+					if bo, isBin := rv.(*ssa.BinOp); isBin && bo.Op == token.ADD {
+						if ph, isPhi := bo.X.(*ssa.Phi); isPhi && ph.Comment == "rangeindex" {
+							an.AllInstrs(g, func(x ssa.Instruction) {
+								if ia, isIA := x.(*ssa.IndexAddr); isIA && ia.Index == ssa.Value(bo) && an.AP(ia.X) == "recv.routers" {
+									isIdx = true
+								}
+							})
+						}
+					}
+					if !isIdx {
+						return false
+					}
+					found++
+				}
 			}
-			if len(rets) == 0 {
+			if found == 0 {
 				return false
 			}
 		}
